@@ -61,11 +61,11 @@ func (sc *scenario) node(i int) *node.Node { return sc.w.Nodes[i] }
 var favTx = map[string][]string{
 	"value":  {"valid", "same-input-twice-rich", "yield-swap", "fee-exact", "fee-low", "fee-plus1", "overflow", "huge-output", "huge-output", "many-outputs", "consolidate", "zero-output"},
 	"spend":  {"valid", "double-spend", "same-input-twice", "same-input-twice-rich", "spend-pooled", "spend-last-block", "duplicate", "bad-index", "unknown-ref"},
-	"owner":  {"valid", "valid", "many-outputs", "bad-sig", "zero-sig", "wrong-owner", "wrong-owner-2nd", "wrong-owner-2nd", "foreign-sig", "replay-sig", "replay-sig", "unknown-ref"},
+	"owner":  {"valid", "valid", "zero-first-outputs", "zero-first-outputs", "shifted-owner", "shifted-owner", "shifted-owner", "many-outputs", "bad-sig", "zero-sig", "wrong-owner", "wrong-owner-2nd", "wrong-owner-2nd", "foreign-sig", "replay-sig", "replay-sig", "unknown-ref"},
 	"shape":  {"valid", "ts-old", "ts-last", "ts-next", "ts-future"},
 	"income": {"valid", "yield-new", "yield-new", "yield-twice", "yield-registered", "yield-swap", "yield-swap"},
 	"alias":  {"valid", "yield-new", "yield-new", "yield-registered"},
-	"pool":   {"valid", "valid", "yield-swap", "yield-swap", "duplicate", "double-spend", "fee-low", "fee-exact", "ts-old", "ts-future", "ts-next", "ts-last", "same-input-twice"},
+	"pool":   {"valid", "valid", "yield-swap", "yield-swap", "yield-swap", "yield-swap", "yield-swap", "duplicate", "double-spend", "fee-low", "fee-exact", "ts-old", "ts-future", "ts-next", "ts-last", "same-input-twice"},
 	"agree":  {"valid", "valid", "yield-swap", "yield-swap", "fee-exact", "ts-last", "ts-next", "yield-new", "yield-registered", "consolidate", "zero-output", "spend-last-block", "spend-pooled"},
 }
 var favBreak = map[string][]string{
@@ -125,7 +125,7 @@ func (sc *scenario) value(u *ledger.Utxo, at int64) uint64 {
 
 var txKinds = []string{"valid", "valid", "valid", "valid", "fee-exact", "fee-low", "fee-plus1", "double-spend", "duplicate", "bad-sig",
 	"zero-sig", "wrong-owner", "wrong-owner-2nd", "foreign-sig", "replay-sig", "unknown-ref", "bad-index", "ts-old", "ts-last", "ts-next", "ts-future", "overflow", "huge-output",
-	"yield-new", "yield-twice", "yield-registered", "yield-swap", "same-input-twice", "same-input-twice-rich", "spend-pooled", "spend-last-block", "zero-output", "many-outputs", "consolidate"}
+	"yield-new", "yield-twice", "yield-registered", "yield-swap", "same-input-twice", "same-input-twice-rich", "spend-pooled", "spend-last-block", "zero-output", "zero-first-outputs", "shifted-owner", "many-outputs", "consolidate"}
 
 func (sc *scenario) makeTx(n *node.Node, kind string) (*ledger.Transaction, string) {
 	r := sc.rng
@@ -438,6 +438,63 @@ func (sc *scenario) makeTx(n *node.Node, kind string) (*ledger.Transaction, stri
 		o := outs(inV, S.MinFee, "")
 		o = append(o, node.RawOutput{Address: other().Address, Value: 0})
 		return mk(spends, o, ts), kind
+	case "zero-first-outputs": // an EMPTY output first, then outputs of two different wallets
+		pickSome(1)
+		if inV < S.MinFee+4 {
+			return nil, ""
+		}
+		w1 := other()
+		var w2 *node.Wallet
+		for _, c := range sc.w.Wallets {
+			if c != w1 {
+				w2 = c
+				break
+			}
+		}
+		if w2 == nil {
+			return nil, ""
+		}
+		rem := inV - S.MinFee
+		return mk(spends, []node.RawOutput{{Address: other().Address, Value: 0}, {Address: w1.Address, Value: rem / 2}, {Address: w2.Address, Value: rem - rem/2}}, ts), kind
+	case "shifted-owner": // output k of a transaction holding an empty output at or below k, spent with the key (and the valid
+		// signature) of the owner of output k+1
+		for _, u := range usable {
+			k := int(u.u.OutputIndex())
+			var src *ledger.Transaction
+			for _, b := range n.AllBlocks() {
+				for _, t := range b.Transactions() {
+					if t.Id() == u.u.TransactionId() {
+						src = t
+					}
+				}
+			}
+			if src == nil || k+1 >= len(src.Outputs()) {
+				continue
+			}
+			empty := false
+			for i := 0; i <= k; i++ {
+				if o := src.Outputs()[i]; o.InitialValue() == 0 && !o.IsYielding() {
+					empty = true
+				}
+			}
+			thief := sc.walletOf(src.Outputs()[k+1].Address())
+			if !empty || thief == nil || thief == u.owner {
+				continue
+			}
+			v := sc.value(u.u, next)
+			if v <= S.MinFee {
+				continue
+			}
+			raw := &node.RawTx{Timestamp: ts, Outputs: []node.RawOutput{{Address: thief.Address, Value: v - S.MinFee}}}
+			raw.Inputs = []node.RawInput{{OutputIndex: u.u.OutputIndex(), TransactionId: u.u.TransactionId(), PublicKey: thief.PubHex,
+				Signature: thief.Sign(u.u.OutputIndex(), u.u.TransactionId())}}
+			tx, err := raw.Seal()
+			if err != nil {
+				return nil, ""
+			}
+			return tx, kind
+		}
+		return nil, ""
 	case "many-outputs":
 		pickSome(1)
 		if inV < S.MinFee+12 {
@@ -960,10 +1017,29 @@ func (sc *scenario) run(maxOps int) {
 			w.Hist["tx:"+k+"→"+v.Info["submit"]]++
 			if v.Info["submit"] == "admitted" {
 				sc.mark("admitted")
+				if k == "zero-first-outputs" && r.Intn(2) == 0 {
+					// confirm it (two on-schedule ticks), then the owner of output k+1 tries to spend output k
+					for q := 0; q < 2; q++ {
+						w.Tick(n, n.Chain.LastBlockTimestamp()+S.Interval)
+					}
+					if ts2, k2 := sc.makeTx(n, "shifted-owner"); ts2 != nil {
+						v2 := w.Submit(n, ts2)
+						w.Hist["tx:"+k2+"→"+v2.Info["submit"]]++
+					}
+				}
 				if k == "yield-swap-A" { // follow with the dependent transaction B straight away
 					if tb, kb := sc.makeTx(n, "yield-swap"); tb != nil && kb == "yield-swap-B" {
 						vb := w.Submit(n, tb)
 						w.Hist["tx:"+kb+"→"+vb.Info["submit"]]++
+						// … and an unrelated valid transaction, then the on-schedule tick: whatever the shuffle makes of the
+						// three (B tried before A is refused at its turn), the unrelated one belongs in the block
+						if vb.Info["submit"] == "admitted" {
+							if tc, kc := sc.makeTx(n, "valid"); tc != nil {
+								vc := w.Submit(n, tc)
+								w.Hist["tx:"+kc+"→"+vc.Info["submit"]]++
+							}
+							w.Tick(n, n.Chain.LastBlockTimestamp()+S.Interval)
+						}
 					}
 				}
 			}
